@@ -195,15 +195,16 @@ class Run(RunBase):
         return "ok"
 
     def _op_clone(self, op):
-        """The writer is copied (copy.copy / copy.deepcopy, the inputs stay shared through the memo) and the COPY is
-        used from now on: it was constructed with the same arguments, so it writes what the original would."""
+        """The writer is copied (copy.copy) and the COPY is used from now on: it was constructed with the same
+        arguments, so it writes what the original would."""
         rec = self.writers[op["w"]]
         scn, pps = self.scn[rec["scn"]]
         try:
-            if op["how"] == "copy":
-                clone = copy.copy(rec["w"])
-            else:
-                clone = copy.deepcopy(rec["w"], {id(scn): scn, id(pps): pps})
+            # (copy.copy only: a DEEP copy re-creates the writer's own sets - e.g. the scenario tags - by inserting
+            # their elements in iteration order, which may legitimately iterate in another order afterwards; the
+            # XML writer emits sets in iteration order, so the tag order of a deep-copied writer can differ from a
+            # fresh one's under some hash seeds without anything being wrong.  Found by the determinism self-test.)
+            clone = copy.copy(rec["w"])
         except Exception as e:  # noqa   whether writers can be copied at all is not C15's business
             self.probe("clone-raised:" + type(e).__name__)
             return {"raised": type(e).__name__}
@@ -394,10 +395,13 @@ class Run(RunBase):
         if n_mine != n_twin:
             what = "after an earlier write by the same writer" if rec["writes"] >= 2 else \
                 "with other writers constructed/used in between"
+            k = next((i for i, (x, y) in enumerate(zip(n_mine, n_twin)) if x != y), min(len(n_mine), len(n_twin)))
             raise Violation(f"C15/content-differs/{tag}<-{cause}",
                             f"content (date aside) differs from what a fresh identical writer produces, {what}: "
                             f"{len(data)} bytes vs {len(twin_res[1])} bytes; writer args {args}",
-                            {"writes_by_this_writer": rec["writes"], "args": args})
+                            {"writes_by_this_writer": rec["writes"], "args": args,
+                             "first_difference_at": k, "this_writer": repr(n_mine[max(0, k - 60):k + 60]),
+                             "fresh_writer": repr(n_twin[max(0, k - 60):k + 60])})
 
         # --- oracle 2: history of identically constructed writers
         key = (f"{rec['scn']}@v{self.version[rec['scn']]}", args["fmt"], args["prec"],
@@ -484,7 +488,7 @@ def _writer_user(rng, run, name, cfg):
                   "validate": rng.chance(0.3) if cfg["buggify_validate"] else False,
                   "readback": rng.chance(cfg["p_readback"]), "path_form": rng.choice(["str", "str", "Path"])}
             if rng.chance(0.12):
-                yield {"op": "clone", "w": w, "how": rng.choice(["copy", "deepcopy"])}
+                yield {"op": "clone", "w": w, "how": "copy"}
             r = rng.random()
             if "F-nodir" in cfg["faults"] and r < cfg["p_fault"]:
                 op["fault"] = {"nodir": True}
@@ -563,7 +567,7 @@ class C15(Property):
                        "midnight-between-two-writes-of-one-writer", "success-after-failed-write",
                        "both-write-methods-on-one-writer", "write-failed-as-twin", "identical-writers-compared",
                        "readback-ok", "clock-crossed-midnight", "clock-went-backwards", "write-after-scenario-changed", "target-is-a-directory", "asked-user-answer-y", "asked-user-answer-n",
-                       "reader-object-reused-after-rewrite", "writer-cloned:copy", "writer-cloned:deepcopy"]
+                       "reader-object-reused-after-rewrite", "writer-cloned:copy"]
     assumptions = [
         "the pristine twin is the library itself (fresh writer, fork-isolated): a defect that a fresh writer shows "
         "too is C01/C02/C03 territory and invisible here by construction",
